@@ -314,4 +314,171 @@ Section AllocInv.
     apply owns_release, owns_release. eapply owns_perm; [exact O|perm].
   Qed.
 
+  (* ---------------------------------------------------------------- shape facts read off the erased page *)
+  Lemma awfn_leaf : forall h id (vs : list elt), wfn L I h (erase (ALeaf id vs)) -> h = 1.
+  Proof. intros h id vs H. cbn [erase] in H. apply (B7 wfn_leaf_inv) in H. tauto. Qed.
+
+  Lemma awfn_inode : forall h id (vs : list elt) cs, wfn L I h (erase (AInode id vs cs)) ->
+    exists h', h = S h' /\ h' <> 0 /\ length cs = S (length vs) /\ (I + 1) / 2 - 1 <= length vs <= I /\
+               Forall (fun c => wfn L I h' (erase c)) cs.
+  Proof.
+    intros h id vs cs H. cbn [erase] in H. apply (B7 wfn_inode_inv) in H as (h' & E & Hn & Hl & Hb & Hf).
+    exists h'. rewrite map_length in Hl. apply (proj1 (Forall_map _ _ _)) in Hf. auto.
+  Qed.
+
+  Lemma achildren_length_erase : forall n : anode, length (achildren n) = length (children (erase n)).
+  Proof. intros. rewrite (E5 achildren_erase), map_length. reflexivity. Qed.
+
+  (* ---------------------------------------------------------------- going down into child j and coming back *)
+  Definition rest (n : anode) (j : nat) : list nat := aid n :: cpages (aerase (achildren n) j).
+
+  Lemma focus_get : forall (n : anode) j, ais_leaf n = false -> j < length (achildren n) ->
+    Permutation (pages n) (pages (achild n j) ++ rest n j).
+  Proof.
+    intros [id vs|id vs cs] j Hl Hj; [discriminate|]. unfold rest, achild. cbn [achildren aid] in *.
+    apply perm_cnt. intro x. autorewrite with cnt. rewrite cnt_pages_inode, cnt_cpages_aerase.
+    rewrite (cnt_cpages_split cs j x Hj). lia.
+  Qed.
+
+  Lemma focus_set : forall (n : anode) j c', ais_leaf n = false -> j < length (achildren n) ->
+    Permutation (pages (aset_child n j c')) (pages c' ++ rest n j).
+  Proof.
+    intros [id vs|id vs cs] j c' Hl Hj; [discriminate|]. unfold rest. cbn [achildren aid aset_child] in *.
+    apply perm_cnt. intro x. autorewrite with cnt. rewrite cnt_pages_inode, cnt_cpages_aerase.
+    rewrite (cnt_cpages_aset cs j c' x Hj). lia.
+  Qed.
+
+  (* the same through [aplug]: the parent page may have been released by the merge (no value left) *)
+  Definition mpages (n1 : anode) : list nat :=
+    match n1 with AInode _ [] cs => cpages cs | _ => pages n1 end.
+  Definition prest (n1 : anode) (j : nat) : list nat :=
+    match n1 with AInode _ [] cs => cpages (aerase cs j) | _ => rest n1 j end.
+
+  Lemma plug_get : forall (n1 : anode) j, ais_leaf n1 = false -> j < length (achildren n1) ->
+    Permutation (mpages n1) (pages (achild n1 j) ++ prest n1 j).
+  Proof.
+    intros n1 j Hl Hj. destruct n1 as [id vs|id [|v vs] cs]; [discriminate| |apply focus_get; assumption].
+    unfold mpages, prest, achild. cbn [achildren] in *.
+    apply perm_cnt. intro x. autorewrite with cnt. rewrite cnt_cpages_aerase.
+    rewrite (cnt_cpages_split cs j x Hj). lia.
+  Qed.
+
+  Lemma plug_set : forall (n1 : anode) j c', ais_leaf n1 = false -> j < length (achildren n1) ->
+    (avals n1 = [] -> length (achildren n1) = 1) ->
+    Permutation (pages (aplug n1 j c')) (pages c' ++ prest n1 j).
+  Proof.
+    intros n1 j c' Hl Hj H1. destruct n1 as [id vs|id [|v vs] cs]; [discriminate| |].
+    - cbn [aplug prest achildren avals] in *. specialize (H1 eq_refl).
+      destruct cs as [|c [|c2 cs]]; cbn [length] in *; try lia. assert (j = 0) by lia. subst j.
+      unfold aerase. cbn [firstn skipn app]. rewrite cpages_nil, app_nil_r. apply Permutation_refl.
+    - change (aplug (AInode id (v :: vs) cs) j c') with (aset_child (AInode id (v :: vs) cs) j c').
+      apply focus_set; assumption.
+  Qed.
+
+  (* ---------------------------------------------------------------- zix_btree_split_child *)
+  Lemma pages_split_node : forall h rid (c : anode) l m r,
+    wfn L I h (erase c) -> asplit_node dflt L I rid c = (l, m, r) ->
+    Permutation (pages l ++ pages r) (rid :: pages c).
+  Proof.
+    intros h rid [id vs|id vs cs] l m r W E; unfold asplit_node in E; cbv beta iota zeta in E;
+      apply pair_equal_spec in E as [E <-]; apply pair_equal_spec in E as [<- _].
+    - apply perm_cnt. intro x. autorewrite with cnt. rewrite !cnt_pages_leaf. lia.
+    - apply awfn_inode in W as (h' & _ & _ & Hl & Hb & _).
+      unfold an_vals, amax_vals. cbn [avals ais_leaf].
+      rewrite (firstn_all2 (n := I - length vs / 2 - 1 + 1) (skipn (length vs / 2 + 1) cs))
+        by (rewrite skipn_length; lia).
+      apply perm_cnt. intro x. autorewrite with cnt. rewrite !cnt_pages_inode.
+      rewrite (cnt_cpages_firstn_skipn cs (length vs / 2 + 1) x). lia.
+  Qed.
+
+  Lemma pages_split_child : forall h rid id vs cs i,
+    i < length cs -> wfn L I h (erase (nth i cs adnode)) ->
+    Permutation (pages (asplit_child dflt L I rid (AInode id vs cs) i)) (rid :: pages (AInode id vs cs)).
+  Proof.
+    intros h rid id vs cs i Hi W. unfold asplit_child.
+    destruct (asplit_node dflt L I rid (nth i cs adnode)) as [[l m] r] eqn:E.
+    pose proof (pages_split_node h rid _ l m r W E) as Hp.
+    rewrite (B7 ainsert_aset) by exact Hi.
+    apply perm_cnt. intro x. perm_hyps x. autorewrite with cnt in *. rewrite !cnt_pages_inode.
+    rewrite cnt_cpages_app, !cnt_cpages_cons. rewrite (cnt_cpages_split cs i x Hi). lia.
+  Qed.
+
+  (* ---------------------------------------------------------------- rotations: the pages only change owner *)
+  Lemma pages_rotate_left : forall h id vs cs i, S i < length cs ->
+    wfn L I h (erase (nth i cs adnode)) -> wfn L I h (erase (nth (S i) cs adnode)) ->
+    Permutation (pages (arotate_left dflt (AInode id vs cs) i)) (pages (AInode id vs cs)).
+  Proof.
+    intros h id vs cs i Hi Wl Wr. unfold arotate_left.
+    destruct (nth i cs adnode) as [lid lv|lid lv lc] eqn:El; destruct (nth (S i) cs adnode) as [rid rv|rid rv rc] eqn:Er;
+      try apply Permutation_refl.
+    - rewrite aset_aset_adj by exact Hi. apply perm_cnt. intro x. rewrite !cnt_pages_inode.
+      rewrite (cnt_cpages_split2 cs i x Hi), El, Er. rewrite cnt_cpages_app, !cnt_cpages_cons, !cnt_pages_leaf. lia.
+    - apply awfn_inode in Wr as (h' & _ & _ & Hlr & _ & _).
+      destruct rc as [|c0 rc]; [cbn [length] in Hlr; lia|].
+      rewrite aset_aset_adj by exact Hi. change (aerase (c0 :: rc) 0) with rc. cbn [nth].
+      apply perm_cnt. intro x. rewrite !cnt_pages_inode.
+      rewrite (cnt_cpages_split2 cs i x Hi), El, Er.
+      rewrite cnt_cpages_app, !cnt_cpages_cons, !cnt_pages_inode, cnt_cpages_app, !cnt_cpages_cons, cnt_cpages_nil. lia.
+  Qed.
+
+  Lemma pages_rotate_right : forall h id vs cs j, S j < length cs ->
+    wfn L I h (erase (nth j cs adnode)) -> wfn L I h (erase (nth (S j) cs adnode)) ->
+    Permutation (pages (arotate_right dflt (AInode id vs cs) (S j))) (pages (AInode id vs cs)).
+  Proof.
+    intros h id vs cs j Hj Wl Wr. unfold arotate_right. replace (S j - 1) with j by lia.
+    destruct (nth j cs adnode) as [lid lv|lid lv lc] eqn:El; destruct (nth (S j) cs adnode) as [rid rv|rid rv rc] eqn:Er;
+      try apply Permutation_refl.
+    - rewrite aset_aset_adj by exact Hj. apply perm_cnt. intro x. rewrite !cnt_pages_inode.
+      rewrite (cnt_cpages_split2 cs j x Hj), El, Er. rewrite cnt_cpages_app, !cnt_cpages_cons, !cnt_pages_leaf. lia.
+    - apply awfn_inode in Wl as (h' & _ & _ & Hll & Hbl & _).
+      assert (H1 : 1 <= length lv) by lia.
+      rewrite aset_aset_adj by exact Hj.
+      apply perm_cnt. intro x. rewrite !cnt_pages_inode.
+      rewrite (cnt_cpages_split2 cs j x Hj), El, Er.
+      rewrite cnt_cpages_app, !cnt_cpages_cons, !cnt_pages_inode, !cnt_cpages_cons.
+      replace (length lv - 1 + 1) with (length lv) by lia.
+      rewrite (cnt_cpages_split lc (length lv) x) by lia.
+      rewrite (skipn_all2 (n := S (length lv)) lc) by lia. rewrite cnt_cpages_nil. lia.
+  Qed.
+
+  (* ---------------------------------------------------------------- zix_btree_merge *)
+  Lemma merge_owns : forall s id (vs : list elt) cs i m rid R,
+    S i < length cs -> length cs = S (length vs) ->
+    Permutation (rid :: pages m) (pages (nth i cs adnode) ++ pages (nth (S i) cs adnode)) ->
+    owns s (pages (AInode id vs cs) ++ R) ->
+    owns (release Aligned rid (match aerase vs i with [] => release Aligned id s | _ :: _ => s end))
+         (mpages (AInode id (aerase vs i) (aerase (aset cs i m) (S i))) ++ R) /\
+    length (aerase (aset cs i m) (S i)) = S (length (aerase vs i)).
+  Proof.
+    intros s id vs cs i m rid R Hi Hl Hm O.
+    assert (Hlen : length (aerase (aset cs i m) (S i)) = S (length (aerase vs i))).
+    { rewrite !length_aerase; rewrite ?length_aset; lia. }
+    assert (Hp : Permutation (pages (AInode id vs cs)) (rid :: id :: cpages (aerase (aset cs i m) (S i)))).
+    { rewrite aerase_aset_adj by exact Hi. apply perm_cnt. intro x. perm_hyps x. autorewrite with cnt in *.
+      rewrite cnt_pages_inode, cnt_cpages_app, cnt_cpages_cons. rewrite (cnt_cpages_split2 cs i x Hi). lia. }
+    clear Hm. split; [|exact Hlen].
+    destruct (aerase vs i) as [|v vs'] eqn:Ev.
+    - cbn [mpages]. apply owns_release, owns_release. eapply owns_perm; [exact O|]. perm.
+    - cbn [mpages]. rewrite pages_inode. apply owns_release. eapply owns_perm; [exact O|]. perm.
+  Qed.
+
+  Lemma amerge_frame : forall h s id vs cs i n1 s1 R,
+    S i < length cs -> length cs = S (length vs) ->
+    wfn L I h (erase (nth i cs adnode)) -> wfn L I h (erase (nth (S i) cs adnode)) ->
+    amerge dflt s (AInode id vs cs) i = (n1, s1) ->
+    owns s (pages (AInode id vs cs) ++ R) ->
+    owns s1 (mpages n1 ++ R) /\ ais_leaf n1 = false /\ length (achildren n1) = S (length (avals n1)).
+  Proof.
+    intros h s id vs cs i n1 s1 R Hi Hl Wl Wr E O. unfold amerge in E. cbv zeta in E.
+    destruct (nth i cs adnode) as [lid lv|lid lv lc] eqn:El; destruct (nth (S i) cs adnode) as [rid rv|rid rv rc] eqn:Er.
+    2:{ exfalso. apply awfn_leaf in Wl. apply awfn_inode in Wr as (h' & E' & Hn & _). lia. }
+    2:{ exfalso. apply awfn_leaf in Wr. apply awfn_inode in Wl as (h' & E' & Hn & _). lia. }
+    - apply pair_equal_spec in E as [<- <-]. cbn [aid ais_leaf achildren avals].
+      destruct (merge_owns s id vs cs i (ALeaf lid (lv ++ nth i vs dflt :: rv)) rid R Hi Hl) as [O1 Hlen]; auto.
+      rewrite El, Er. apply perm_cnt. intro x. autorewrite with cnt. rewrite !cnt_pages_leaf. lia.
+    - apply pair_equal_spec in E as [<- <-]. cbn [aid ais_leaf achildren avals].
+      destruct (merge_owns s id vs cs i (AInode lid (lv ++ nth i vs dflt :: rv) (lc ++ rc)) rid R Hi Hl) as [O1 Hlen]; auto.
+      rewrite El, Er. apply perm_cnt. intro x. autorewrite with cnt. rewrite !cnt_pages_inode, cnt_cpages_app. lia.
+  Qed.
+
 End AllocInv.
